@@ -93,14 +93,29 @@ def judge(exp, o, cc=True):
     return values.result_close(exp, o, cc)
 
 
-def validate(chk, units, keyfn, pack=40, module='VTLOperators_Trace', cfg='VTLOperators_Trace.cfg'):
-    """B2: observe units on the engine, let TLC judge each observation."""
+def validate(chk, units, keyfn, pack=40, module='VTLOperators_Trace', cfg='VTLOperators_Trace.cfg', raw_is_violation=True, group=None):
+    """B2: observe units on the engine, let TLC judge each observation.
+    group: name of a unit field; units sharing it are variants of one abstract step - when raw_is_violation is off,
+    an error outcome is only a violation if another variant of the same group succeeded (outcome depends on the variant)."""
     obs = k2.execute(units, pack=pack)
     live_u, live_o = [], []
+    okgroups = set()
+    if group:
+        for u, o in zip(units, obs):
+            if 'err' not in o:
+                okgroups.add(u[group])
     for u, o in zip(units, obs):
         if 'machinery' in o:
             raise RuntimeError(o['machinery'])
         chk.add('evaluations')
+        if 'err' in o and not raw_is_violation:
+            if group and u[group] in okgroups:
+                chk.violation('outcome depends on the variant | %s | %s' % (keyfn(u), o.get('text')),
+                              'this variant raised %s %s while another variant of the same step returned a result' % (o['err'], o.get('msg')),
+                              {'env': u['env'], 'term': u['term'], 'observed': o})
+            else:
+                chk.add('skipped_engine_error')
+            continue
         if 'err' in o and o['err'].startswith('RAW:'):
             chk.violation('raw:%s | %s | %s' % (o['err'][4:], keyfn(u), o.get('text')), 'raw (non-VTL) exception escaped: %s %s' % (o['err'], o.get('msg')),
                           {'env': u['env'], 'term': u['term'], 'observed': o})
